@@ -15,6 +15,7 @@ package bpv7
 // offset, then the merged data is a prefix of P - reassembly never returns data that differs from the original.
 // govc:func mergeFragmentPayload property C10 C04
 //@ requires forall k int :: 0 <= k && k < len(bs) ==> blocksNonNil(bs[k])
+//@ assigns nothing
 //@ ensures err != nil ==> true
 //@ loop 0 invariant 0 <= rangeindex + 1 && 0 <= lastIndex && len(data) == lastIndex @nocase
 //@ case family:
@@ -50,3 +51,17 @@ package bpv7
 // govc:trusted ReassembleFragments
 //@ assigns elems(bs)
 //@ ensures (err == nil) == uf("reassemblyOK", bool, ref(bs))
+
+// Reassembly from its body: the result takes over the primary block of the lowest-offset fragment with the fragment
+// marks removed (flag cleared, offset and total length zero); the identifying fields are untouched. Its safety
+// obligations (type assertions and nil checks on the blocks of the sorted fragments) need the typed-blocks invariant
+// across sort.Slice, which is decided in the thorough tier only (prepareReassembly): they are assumed here.
+// govc:spec reasmOf(x PrimaryBlock, y PrimaryBlock) bool = x.Version == y.Version && uint64(x.BundleControlFlags) == uint64(y.BundleControlFlags) & 0xFFFFFFFFFFFFFFFE && x.CRCType == y.CRCType && x.Destination == y.Destination && x.SourceNode == y.SourceNode && x.ReportTo == y.ReportTo && x.CreationTimestamp == y.CreationTimestamp && x.Lifetime == y.Lifetime
+
+// govc:func ReassembleFragments property C09 C10
+//@ opt safety assumed
+//@ requires forall k int :: 0 <= k && k < len(bs) ==> blocksNonNil(bs[k])
+//@ assigns elems(bs)
+//@ ensures err == nil ==> len(bs) >= 1 && reasmOf(b.PrimaryBlock, bs[0].PrimaryBlock)
+//@ ensures err == nil ==> b.PrimaryBlock.FragmentOffset == 0 && b.PrimaryBlock.TotalDataLength == 0
+//@ loop 0 invariant 0 <= rangeindex + 1 && len(bs) >= 1 && reasmOf(b.PrimaryBlock, bs[0].PrimaryBlock) && b.PrimaryBlock.FragmentOffset == 0 && b.PrimaryBlock.TotalDataLength == 0
